@@ -73,6 +73,9 @@ type Interp struct {
 	Prog *ssa.Program
 	ctx  *sym.Ctx
 	Sol  *solver.Solver
+	// Sol2, if set, re-decides every assertion query that Sol answered unsat (cross-check)
+	Sol2 *solver.Solver
+	XCheckBudget int // max unsat answers re-decided per worker
 
 	globals    map[*ssa.Global]*Value
 	initDone   map[*ssa.Package]bool
@@ -119,6 +122,8 @@ type Interp struct {
 		Decides     int
 		Unsupported map[string]int
 		EnumQueries int
+		XChecked    int
+		XDisagree   int
 	}
 	Used     map[string]string // function → class (interp / intrinsic / stub)
 	InitUsed map[string]string
@@ -176,7 +181,23 @@ func New(prog *ssa.Program, kind string, timeoutMs int) (*Interp, error) {
 
 func (ip *Interp) Ctx() *sym.Ctx { return ip.ctx }
 
-func (ip *Interp) Close() { ip.Sol.Close() }
+func (ip *Interp) Close() {
+	ip.Sol.Close()
+	if ip.Sol2 != nil {
+		ip.Sol2.Close()
+	}
+}
+
+// EnableCrossCheck starts a second solver of the given kind.
+func (ip *Interp) EnableCrossCheck(kind string, timeoutMs int) error {
+	s2, err := solver.New(kind, ip.ctx, timeoutMs)
+	if err != nil {
+		return err
+	}
+	ip.Sol2 = s2
+	ip.XCheckBudget = 1500
+	return nil
+}
 
 // ---------------------------------------------------------------- memory
 
